@@ -4,7 +4,7 @@ patch="$1"; shift
 cd /verif
 patch="$(realpath "$patch")"; git -C /repo apply "$patch" || { echo "patch does not apply"; exit 9; }
 for c in "$@"; do
-  ./check "$c" --tier quick | grep -E "^(VIOLATION|KNOWN-FINDING|UNDECIDED|CHECKER-ERROR|  failed|C[0-9]+ \[)" | cut -c1-300
+  VERIF_OUT=/var/tmp/try_patch_out ./check "$c" --tier quick | grep -E "^(VIOLATION|KNOWN-FINDING|UNDECIDED|CHECKER-ERROR|  failed|C[0-9]+ \[)" | cut -c1-300
 done
 git -C /repo checkout -- .
 git -C /repo status --short
